@@ -353,6 +353,11 @@ pub fn reference(prog: &Prog, max_steps: u32) -> (Outcome, u32) {
     if !s.terminal() {
         s.end = Some(End::StepCap);
     }
+    if let Some(p) = &s.fault {
+        s.end = Some(End::Fault(p.clone()));
+    } else if let Err(e) = s.invariant() {
+        s.end = Some(End::InternalError { text: e });
+    }
     (s.outcome(), s.msteps)
 }
 
